@@ -436,7 +436,7 @@ def systematic_scenarios(seed: int, part: int, parts: int):
         def collect(o):
             got.append(o)
         collect()
-        for o in got[:2]:
+        for o in got[:2 if kind in ('descr_update', 'ctx_update') else 1]:
             out.append({'setup': [], 'readers': [[[req, None]]], 'writers': [[o]], 'fine': False})
     return out
 
@@ -470,8 +470,8 @@ def shard(ctx, which, *args):
 
 def run(ctx):
     quick = ctx.tier == 'quick'
-    jobs = [("random", 22 if quick else 250)] * (R.NPROC - 6)
-    jobs += [('dfs', ctx.sub_seed('dfs', i) % 2**32, 4 if quick else 12, 40 if quick else 3000, i, 6) for i in range(6)]
+    jobs = [("random", 18 if quick else 250)] * (R.NPROC - 6)
+    jobs += [('dfs', ctx.sub_seed('dfs', i) % 2**32, 3 if quick else 12, 40 if quick else 3000, i, 6) for i in range(6)]
     R.run_shards(ctx, __name__, 'shard', jobs)
 
 
